@@ -38,7 +38,7 @@ fn check(case: &Case, obs: &mut Obs) -> CheckResult {
 
 fn check_inner(case: &Case, obs: &mut Obs) -> CheckResult {
     let w = world();
-    let s = sim::run(w, case, Focus::C05, obs)?;
+    let (s, deferred) = sim::run(w, case, Focus::C05, obs)?;
     // ---- classification
     let n_routes_allowed = (0..world::POOL)
         .filter(|r| {
@@ -101,7 +101,10 @@ fn check_inner(case: &Case, obs: &mut Obs) -> CheckResult {
         obs.label("nontrivial");
         obs.nontrivial(&serde_json::to_string(case).unwrap_or_default());
     }
-    Ok(())
+    match deferred {
+        Some(f) => Err(f),
+        None => Ok(()),
+    }
 }
 
 fn case_strategy(max_ops: usize) -> impl Strategy<Value = Case> {
@@ -111,7 +114,7 @@ fn case_strategy(max_ops: usize) -> impl Strategy<Value = Case> {
 }
 
 fn run_random(ctx: &Ctx) {
-    let n = ctx.tier.pick(20_000, 1_000_000);
+    let n = ctx.tier.pick(40_000, 2_000_000);
     let max_ops = ctx.tier.pick(30, 80);
     ctx.run_prop("histories-random", n, || case_strategy(max_ops), check);
 }
@@ -180,7 +183,7 @@ fn run_exhaustive(ctx: &Ctx) {
 }
 
 fn post(ctx: &Ctx) {
-    ctx.require_label("nontrivial", ctx.tier.pick(600, 60_000));
+    ctx.require_label("nontrivial", ctx.tier.pick(5_000, 300_000));
     ctx.require_label("policy-splits-pool", 500);
     ctx.require_label("metadata-less-path-under-metadata-policy", 300);
     ctx.require_label("send-got-path", 800);
@@ -204,6 +207,7 @@ fn main() {
             "maintenance runs exactly at the instants next_maintain() names (the real task runs it at or after them)",
             "fetches resolve instantly (no sender observes the manager mid-fetch)",
             "the worker's exit epilogue (idle) is not modelled: a history ends when maintain() returns an exit reason",
+            "ranking ties are broken nondeterministically by the manager (new paths pass through a randomly keyed HashMap before a stable sort), so one history has several executions; no assertion depends on WHICH of equally ranked paths wins: every oracle constrains whatever path is returned (policy, provenance, liveness), sizes, schedules, or - in C07 - scores up to a 1e-3 tolerance where any path within tolerance of the best is accepted; replays and regressions run a case 33 times and fail if any execution fails",
         ],
         &subs,
         post,
